@@ -160,6 +160,15 @@ impl Sim {
             s.lines.push(format!("(OForge {} {}, true, [({}, Now {})])", k, t, k, t));
             s.last.insert(k.clone(), t);
         }
+        // the program accounts exist in the bank from the start; the model is told their balance and size (read from the bank) so that
+        // an instruction naming one of them as a lamport recipient meets the same rent-state rule in both. They are never observed
+        // afterwards (nothing in the property texts speaks about them), hence the empty observation list.
+        for k in [K::Token, K::AtaProg, K::Rd, K::Passport, K::SwapMock, K::Rogue(1), K::Rogue(2)] {
+            let p = s.keys.pk(&k);
+            if let Some(a) = s.ctx.banks_client.get_account(p).await.unwrap() {
+                s.lines.push(format!("(OForge {} {{| lamports := {}; owner := KLoader; alen := {}; data := DEmpty |}}, true, [])", k, a.lamports, a.data.len()));
+            }
+        }
         s.op(Op::Airdrop(K::User(UPGRADE_AUTHORITY), 10_000_000_000)).await;
         s.op(Op::Airdrop(K::User(MINT_AUTHORITY), 10_000_000_000)).await;
         s
